@@ -7,8 +7,12 @@ Case JSON (one of):
        {"op":"take","lim","key","down"} | {"op":"tick","ms"} | {"op":"conc","lim","key","g"} | {"op":"replace"}]}
   {"kind":"token","rate","burst","insts":1|2,"t0":ms,"ops":[
        {"op":"allow","inst","n","ctx","skew"} | {"op":"tick","ms"} | {"op":"conc","inst","g","n"} |
-       {"op":"fault","eval","ping","hard"} | {"op":"replace","eval","ping"} |
+       {"op":"fault","eval","ping","hard","hang"} | {"op":"replace","eval","ping"} |
        {"op":"sleep","ms"}  (a tick that also takes the same real time: the monitor keeps pinging)]}
+  allow ctx: 0 live, 1 cancelled, 2 deadline passed, 3 deadline (40 ms) expires while the EVAL is in flight
+  (pre-hook parks the EVAL; it is dropped afterwards). fault hang: every command is accepted and never answered.
+  token "rto": go-redis read/write/dial timeout in ms for this case (hang cases). period "clk":"real","skew":s:
+  the server clock is the callers' wall clock + s seconds (default: a scripted clock in 2020).
   replace = the miniredis is closed and a NEW instance (empty data, empty script cache) is started on the
   same address; limiters with the same pfx / the token instances share their Redis keys.
 """
@@ -49,7 +53,11 @@ RULE = ("period cases: 1-2 limiters (period 1..60 s, quota 0..8, 25% Align()), 1
         "outage patterns (EVAL and/or PING answered with errors, or listener closed and restarted) with the monitor "
         "awaited whenever PING is answered; every run starts with long outages (quick: 1.3 s and 3 s, thorough: 24 of "
         "1.5-10 s REAL time, 30% with the listener closed) during which the 100 ms monitor keeps pinging in vain, followed by "
-        "recovery (restart or replacement) and 10-14 requests that must all be decided by Redis again; the server that comes back is in 40% of the recoveries a REPLACEMENT (old miniredis "
+        "recovery (restart or replacement) and 10-14 requests that must all be decided by Redis again, with a HANG outage "
+        "(quick: two with 200 ms client timeouts, thorough: four short and one with the 3 s defaults: the server accepts "
+        "every command and never answers), with deadlines expiring while the EVAL is in flight on a healthy Redis (also 3% "
+        "of the random requests) and with window-edge histories on servers one hour ahead of / behind the callers' wall "
+        "clock (60% of the random period cases run on such a skewed real clock: 0, +-7 s, +-1 h, +-400 d); the server that comes back is in 40% of the recoveries a REPLACEMENT (old miniredis "
         "closed, a new one started on the same address: empty data and script cache), also swapped in between calls of a "
         "healthy limiter (15% of the non-outage token cases, 20% of the period cases); 30% of the token cases run two "
         "TokenLimiter instances on the one key, 18% of the period cases two PeriodLimit instances on the same keys; non-trivial = (period) a HitQuota/OverQuota and a restart after expiry "
@@ -113,7 +121,55 @@ def _period_case(rng, tier):
             ops.append({"op": "replace"})
         else:
             ops.append({"op": "conc", "lim": lim, "key": rng.randrange(nkeys), "g": rng.randint(2, 8)})
-    return {"kind": "period", "lims": lims, "t0": T0_BASE + rng.randrange(10 ** 9), "ops": ops}
+    case = {"kind": "period", "lims": lims, "t0": T0_BASE + rng.randrange(10 ** 9), "ops": ops}
+    if rng.random() < 0.6:
+        # the server's clock is the callers' wall clock plus a constant skew (seconds)
+        case["clk"] = "real"
+        case["skew"] = rng.choice([0, 3600, -3600, 3600, -3600, 7, -7, 86400 * 400, -86400 * 400])
+    return case
+
+
+def _skew_case(rng, skew):
+    """directed: exact window edges on a server whose clock is skew seconds away from the callers'"""
+    period, quota = rng.choice([(1, 2), (2, 2), (3, 3), (2, 1), (5, 4)])
+    tk = lambda k=0: {"op": "take", "lim": 0, "key": k, "down": False}
+    ops = [tk() for _ in range(quota + 1)] + [tk(1), {"op": "tick", "ms": period * 1000 - 1}, tk(), {"op": "tick", "ms": 1}]
+    ops += [tk() for _ in range(quota + 1)] + [{"op": "tick", "ms": period * 1000 - 1}, tk(1), tk(), {"op": "tick", "ms": 1}, tk(), tk(1)]
+    return {"kind": "period", "lims": [{"period": period, "quota": quota, "align": False, "pfx": 0}], "clk": "real", "skew": skew,
+            "t0": T0_BASE + rng.randrange(10 ** 9), "ops": ops}
+
+
+def _inflight_case(rng):
+    """directed: deadlines that expire while the script call is in flight, on a healthy Redis: every one
+    is a refusal that neither starts the monitor nor touches the in-process bucket (which would grant)"""
+    rate, burst = rng.choice([(1, 3), (2, 5), (5, 10)])
+    insts = rng.choice([1, 2])
+    al = lambda n, ctx=0: {"op": "allow", "inst": rng.randrange(insts), "n": n, "ctx": ctx, "skew": 0}
+    ops = [al(burst - 1), al(1, 3), al(1), al(1, 3), al(1), {"op": "tick", "ms": 1000}, al(1, 3), al(rate), al(1, 3), al(1)]
+    return {"kind": "token", "rate": rate, "burst": burst, "insts": insts, "t0": T0_BASE + rng.randrange(10 ** 9), "ops": ops}
+
+
+def _hang_case(rng, rto):
+    """directed: the server accepts every command and never answers (no refusal, no error reply). The
+    request that runs into it is decided by the in-process bucket once go-redis has given up (4 attempts of
+    rto ms; rto 0 = the package's defaults, 4 x 3 s), the following ones at once; after the server answers
+    again the limiter is back on Redis."""
+    rate, burst = rng.choice([(1, 3), (2, 5), (5, 10)])
+    insts = rng.choice([1, 2]) if rto else 1
+    al = lambda n, inst=0: {"op": "allow", "inst": inst, "n": n, "ctx": 0, "skew": 0}
+    ops = [al(1, rng.randrange(insts)) for _ in range(rng.randint(1, 2))]
+    ops.append({"op": "fault", "eval": False, "ping": False, "hard": False, "hang": True})
+    for i in range(insts):
+        ops.append(al(1, i))
+    for _ in range(rng.randint(3, 6)):
+        if rng.random() < 0.3:
+            ops.append({"op": "tick", "ms": rng.choice([0, 250, 1000])})
+        else:
+            ops.append(al(rng.choice([1, 1, 2, burst]), rng.randrange(insts)))
+    ops.append({"op": "fault", "eval": True, "ping": True, "hard": False})
+    for _ in range(rng.randint(6, 9)):
+        ops.append(al(rng.choice([1, 1, 2]), rng.randrange(insts)))
+    return {"kind": "token", "rate": rate, "burst": burst, "insts": insts, "rto": rto, "t0": T0_BASE + rng.randrange(10 ** 9), "ops": ops}
 
 
 def _token_case(rng, tier, outage=None):
@@ -185,9 +241,11 @@ def _token_case(rng, tier, outage=None):
                 ctx = 1
             elif rc < 0.07:
                 ctx = 2
-            will_fail = alive[inst] and ((ctx == 0 and (not eup or script_fails)) or ctx == 2)
+            elif rc < 0.10 and alive[inst] and not (hard and not eup and not pup):
+                ctx = 3        # the deadline expires while the script call is in flight
+            will_fail = alive[inst] and ((ctx == 0 and (not eup or script_fails)) or ctx in (2, 3))
             if will_fail and failures[inst] >= 4:
-                if ctx == 2:
+                if ctx in (2, 3):
                     ctx = 1
                 else:
                     continue
@@ -247,16 +305,25 @@ def _long_outage_case(rng, tier, total_ms):
     return {"kind": "token", "rate": rate, "burst": burst, "insts": insts, "t0": T0_BASE + rng.randrange(10 ** 9), "ops": ops}
 
 
-def _long_outages(rng, tier):
+def _fixed_cases(rng, tier):
+    """cases every run starts with (real-time outages are too expensive to leave to chance)"""
     if tier == "thorough":
         spans = [1500, 2000, 3000, 3000, 5000, 10000] * 4
+        hangs = [200, 200, 200, 300, 0]
+        k = 8
     else:
         spans = [1300, 3000]
-    return [_long_outage_case(rng, tier, ms) for ms in spans]
+        hangs = [200, 200]
+        k = 1
+    cases = [_long_outage_case(rng, tier, ms) for ms in spans]
+    cases += [_hang_case(rng, rto) for rto in hangs]
+    for _ in range(k):
+        cases += [_inflight_case(rng), _skew_case(rng, 3600), _skew_case(rng, -3600)]
+    return cases
 
 
 def generate(rng, tier, n):
-    cases = _long_outages(rng, tier)
+    cases = _fixed_cases(rng, tier)
     n = max(0, n - len(cases))
     for _ in range(n):
         if rng.random() < 0.45:
@@ -398,6 +465,7 @@ def bucket(case, obs):
     if case["kind"] == "period":
         if any(l["align"] for l in case["lims"]):
             out.append("period:align")
+        out.append("period:server-clock=%s" % ("2020" if case.get("clk") != "real" else "caller%+ds" % case.get("skew", 0)))
         if len(case["lims"]) == 2 and case["lims"][0].get("pfx") == case["lims"][1].get("pfx"):
             out.append("period:two-instances-one-key")
         for op, o in zip(case["ops"], obs["ops"]):
@@ -420,7 +488,9 @@ def bucket(case, obs):
     for op, o in zip(case["ops"], obs["ops"]):
         out.append("top:" + op["op"])
         if op["op"] == "allow":
-            if op.get("ctx", 0):
+            if op.get("ctx", 0) == 3:
+                out.append("allow:deadline-in-flight")
+            elif op.get("ctx", 0):
                 out.append("allow:ctx-done")
             elif o["alive"][op.get("inst", 0)] == 0 or o["mon"][op.get("inst", 0)]:
                 out.append("allow:rescue")
@@ -433,7 +503,8 @@ def bucket(case, obs):
             out.append("replace:decided-by-new-server")
             replaced = False
         if op["op"] == "fault":
-            out.append("fault:%s%s%s" % ("E" if op["eval"] else "e", "P" if op["ping"] else "p", "-hard" if op.get("hard") else ""))
+            out.append("fault:%s%s%s" % ("E" if op["eval"] else "e", "P" if op["ping"] else "p",
+                                         "-hard" if op.get("hard") else ("-hang" if op.get("hang") else "")))
         if op["op"] == "tick" and prev_present and o["tok"][0] == 0:
             out.append("tick:bucket-keys-expired")
         if o.get("tok", [0])[0] >= 0:
